@@ -25,7 +25,7 @@ LEVEL = "exploration"
 RUNS = {"quick": 40000, "thorough": 1000000}
 WALL = {"quick": 240, "thorough": 1500}
 PARTITIONS = [{"name": "default", "env": {}}]
-FAULT_KINDS = ["built_from_callers_arrays", "refusal_probe", "fill_between_scalings", "int_dtype_scaled", "numpy_scalar", "chain>=3",
+FAULT_KINDS = ["refusal_probe_under_free_arithmetics", "member_changed_directly", "built_from_callers_arrays", "refusal_probe", "fill_between_scalings", "int_dtype_scaled", "numpy_scalar", "chain>=3",
                "missed_present", "custom_errors", "inplace"]
 RULE = ("one run = one live histogram (1-3 D, any binning family, int/float dtype, with missed weight and optional "
         "custom errors) or a collection, then a seeded chain (<= 10) of scalings / divisions / normalisations "
@@ -117,7 +117,9 @@ def generate(rng, seed, part):
             nxt_entry += 1
         else:
             ops.append({"op": "refuse", "kind": rng.choice(["h*h", "h/h", "c/h", "neg_mul", "neg_div", "neg_imul",
-                                                             "array_mul", "array_div", "list_mul"]),
+                                                             "array_mul", "array_div", "list_mul",
+                                                             # refused whatever the setting of free arithmetics
+                                                             "h*h@free", "h/h@free", "c/h@free", "h/=h@free", "h*=h@free"]),
                         "c": rng.choice([-1, -2.5, -0.5, -3])})
     return {"property": PROPERTY, "scenario": "scaling_chain", "config": cfg, "entries": entries, "ops": ops}
 
@@ -130,8 +132,18 @@ def generate_collection(rng):
     for _ in range(k):
         n = rng.choice([0, 2, 5, 10])
         members.append([build.draw_value(rng, pool, inside_only=rng.random() < 0.8) for _ in range(n)])
-    ops = [{"op": rng.choice(["normalize_bins", "normalize_all"]), "inplace": rng.random() < 0.5}
-           for _ in range(rng.randint(1, 3))]
+    ops = []
+    for _ in range(rng.randint(1, 4)):
+        r = rng.random()
+        if r < 0.55:
+            ops.append({"op": rng.choice(["normalize_bins", "normalize_all"]), "inplace": rng.random() < 0.5})
+        elif r < 0.70:
+            ops.append({"op": "sum"})  # (read-out between two normalisations; judged by C05, not here)
+        else:
+            # a member is changed directly, not through the collection
+            ops.append({"op": "member", "k": rng.randrange(k), "how": rng.choice(["imul", "idiv", "fill", "fill_n"]),
+                        "arg": rng.randrange(64), "by_name": rng.random() < 0.5})
+    ops.append({"op": rng.choice(["normalize_bins", "normalize_all"]), "inplace": rng.random() < 0.5})
     return {"property": PROPERTY, "scenario": "collection", "config": {"axis": axis, "members": members},
             "entries": [], "ops": ops}
 
@@ -470,14 +482,35 @@ def execute(plan, ctx):
             c = op["c"]
             arr = np.ones(h.shape)
             other = h.copy()
+            free = k.endswith("@free")
+            k = k.split("@")[0]
+
+            def idiv_h():
+                x = h
+                x /= other
+                return x
+
+            def imul_h():
+                x = h
+                x *= other
+                return x
             fn = {
+                "h/=h": idiv_h, "h*=h": imul_h,
                 "h*h": lambda: h * other, "h/h": lambda: h / other, "c/h": lambda: 2 / h,
                 "neg_mul": lambda: h * c, "neg_div": lambda: h / c,
                 "neg_imul": lambda: h.__imul__(c),
                 "array_mul": lambda: h * arr, "array_div": lambda: h / arr,
                 "list_mul": lambda: h * arr.tolist(),
             }[k]
-            ok, res = attempt(fn)
+            if free:
+                from physt.config import config as _config
+
+                with _config.enable_free_arithmetics():
+                    ok, res = attempt(fn)
+                k = k + "@free-arithmetics"
+                ctx.fault("refusal_probe_under_free_arithmetics")
+            else:
+                ok, res = attempt(fn)
             ctx.fault("refusal_probe")
             ctx.ev("node", f"refuse:{k}", None, "accepted" if ok else exc_tag(res))
             ctx.abstract("refuse", k, ok)
@@ -551,6 +584,26 @@ def execute_collection(plan, ctx):
         o = op["op"]
         if any(not np.all(np.isfinite(b)) for b in before):
             return  # an all-zero bin was normalised earlier (documented: result is inf/nan)
+        if o == "sum":
+            attempt(col.sum)
+            continue
+        if o == "member":
+            m = col.histograms[op["k"] % len(col.histograms)]
+            if op.get("by_name") and m.name:
+                m = col[m.name]
+            lo = float(np.asarray(m.bins)[0].mean())
+            with np.errstate(all="ignore"):
+                if op["how"] == "imul":
+                    attempt(lambda: m.__imul__([3, 0.5, 2][op["arg"] % 3]))
+                elif op["how"] == "idiv":
+                    attempt(lambda: m.__itruediv__([2.0, 4][op["arg"] % 2]))
+                elif op["how"] == "fill":
+                    attempt(m.fill, lo, 1 + op["arg"] % 3)
+                else:
+                    attempt(m.fill_n, [lo, lo])
+            ctx.fault("member_changed_directly")
+            ctx.abstract("member", op["how"])
+            continue
         if o == "normalize_all" and any(not b.sum() > 0 for b in before):
             continue  # normalize() is only defined for a positive total
         with np.errstate(all="ignore"):
